@@ -2808,6 +2808,8 @@ class PlateSlicer(Slicer):
         else:
             different = False
             to.plate = frm.plate = deepcopy(to.plate)
+            if set(map(id, numpy.ravel(frm.get()))) & set(map(id, numpy.ravel(to.get()))):
+                raise ValueError("Source and destination slices must not overlap.")
 
         if frm.size == 1:
             # Source from the single element in frm
